@@ -407,6 +407,12 @@ func stmt(o op) string {
 		}
 		return fmt.Sprintf("e = %s\ndump(v)\n", S)
 	case "BindMV":
+		if o.Rw && o.X == "sum" {
+			return fmt.Sprintf("{\n\ttmp := %s\n\t%s = tmp.Sum\n}\ndump(v)\n", S, D)
+		}
+		if o.Rw {
+			return fmt.Sprintf("{\n\ttmp := &%s\n\t%s = tmp.PInc\n}\ndump(v)\n", S, D)
+		}
 		if o.X == "sum" {
 			return fmt.Sprintf("%s = %s\ndump(v)\n", D, o.S.dot("Sum"))
 		}
